@@ -151,6 +151,10 @@ type vc struct {
 	readOps []readOp
 	curOrigin string
 	firstIter []firstIterEq
+	curBlock    *ssa.BasicBlock
+	frameCache  *frameSpec
+	lastCall    []string
+	lastCallSig *types.Signature
 	loopEntry map[*ssa.BasicBlock]loopEntryInfo
 	ghostSorts map[string]string
 }
